@@ -60,7 +60,12 @@ func safeExec(op Op) (out string, verdict string) {
 			out, verdict = "panic", fmt.Sprintf("panic: %v", r)
 		}
 	}()
-	return ex(op.Args)
+	staleSeen = ""
+	out, verdict = ex(op.Args)
+	if staleSeen != "" && verdict == "" {
+		verdict = staleSeen
+	}
+	return out, verdict
 }
 
 // oneLine makes a verdict fit the line protocol: no spaces, no line breaks
